@@ -143,11 +143,11 @@ def _on_alarm(signum, frame):
 def _run_one(mod, case, known):
     """Run a case; classify failures against the known-findings list.
 
-    Watchdog: a case that does not finish within CASE_TIMEOUT seconds (default 150; typical cases
+    Watchdog: a case that does not finish within CASE_TIMEOUT seconds (default 600; typical cases
     take milliseconds to a few seconds) is reported as non-termination of the code under test.
     """
     import signal
-    limit = int(getattr(mod, 'CASE_TIMEOUT', 150))
+    limit = int(getattr(mod, 'CASE_TIMEOUT', 600))
     old = signal.signal(signal.SIGALRM, _on_alarm)
     signal.alarm(limit)
     try:
